@@ -22,30 +22,41 @@ class Reach:
                 self.block_defs.setdefault(bb, []).append((l, pos, did))
         for bb in self.block_defs:
             self.block_defs[bb].sort(key=lambda x: x[1])
-        # dataflow
+        # feasible reaching definitions: forward exploration over (block, env, current defs) states, pruning
+        # the branches that the flag idioms make infeasible (paths.Env); IN[b] = union over the states reaching b
+        from .paths import Env, step_stmt, step_call, feasible_succs
         cfg = fn.cfg
         self.IN = {b: {} for b in cfg.reach}
-        entry = {l: {(l, "param")} for l in self.multi if fn.locals[l]["arg"]}
+        entry = {l: (l, "param") for l in self.multi if fn.locals[l]["arg"]}
         for l in self.multi:
-            entry.setdefault(l, {(l, "undef")})
-        self.IN[0] = {l: set(s) for l, s in entry.items()}
-        work = list(sorted(cfg.reach))
+            entry.setdefault(l, (l, "undef"))
+        seen = set()
+        work = [(0, Env(), tuple(sorted(entry.items())))]
+        nstates = 0
         while work:
-            b = work.pop(0)
-            out = {l: set(s) for l, s in self.IN[b].items()}
+            b, env, cur = work.pop()
+            key = (b, env.key(), cur)
+            if key in seen:
+                continue
+            seen.add(key)
+            nstates += 1
+            if nstates > 20000:
+                break
+            for l, did in cur:
+                self.IN[b].setdefault(l, set()).add(did)
+            d = dict(cur)
             for (l, pos, did) in self.block_defs.get(b, []):
-                out[l] = {did}
-            for s in cfg.succ[b]:
-                if s not in self.IN:
-                    continue
-                changed = False
-                for l, ds in out.items():
-                    cur = self.IN[s].setdefault(l, set())
-                    if not ds <= cur:
-                        cur |= ds
-                        changed = True
-                if changed and s not in work:
-                    work.append(s)
+                d[l] = did
+            env = env.copy()
+            blk = fn.blocks[b]
+            for st in blk["stmts"]:
+                step_stmt(env, st)
+            if blk["term"]["k"] == "call":
+                step_call(env, blk["term"])
+            nxt = tuple(sorted(d.items()))
+            for s in feasible_succs(fn, b, env):
+                if s in self.IN:
+                    work.append((s, env, nxt))
 
     def at(self, l, bb, pos):
         """definitions of local l reaching program point (bb, pos) (pos: stmt index, or 10**6 for the terminator)"""
@@ -130,7 +141,7 @@ class FlowVP:
                 alts.append(("undef", fn.key, l))
             else:
                 d = self.reach(fn).defs[did]
-                alts.append(self.def_term(fn, d, stack + (key,)))
+                alts.append(("defat", (fn.key, d[1]), self.def_term(fn, d, stack + (key,)), did))
         out = []
         for a in alts:
             if a not in out:
@@ -138,6 +149,15 @@ class FlowVP:
         if len(out) == 1 and out[0][0] != "rec":
             return out[0]
         return ("mu", tuple(out))
+
+    @staticmethod
+    def undefat(t):
+        return t[2] if t and t[0] == "defat" else t
+
+    def fresh_def(self, fn, did):
+        """the defining term of definition `did`, evaluated with an empty context (canonical at its own site)"""
+        d = self.reach(fn).defs[did]
+        return self.def_term(fn, d, ())
 
     def def_term(self, fn, d, stack):
         if d[0] == "stmt":
@@ -215,6 +235,8 @@ def canon(t, closure_body=None, depth=0):
         return "…"
     c = lambda x: canon(x, closure_body, depth + 1)
     t = strip(t)
+    while t[0] == "defat":
+        t = strip(t[2])
     k = t[0]
     if k == "param":
         return "P%d" % t[2]
@@ -266,7 +288,7 @@ def canon(t, closure_body=None, depth=0):
     if k == "mu":
         return "mu{%s}" % "|".join(sorted(c(a) for a in t[1]))
     if k == "rec":
-        return "rec%d" % t[1]
+        return "rec%s" % (t[1] if len(t) == 2 else "")
     if k == "phi":
         return "phi{%s}" % "|".join(sorted(c(a) for a in t[4]))
     if k == "cparam":
